@@ -123,7 +123,7 @@ impl GenCfg {
         let mut c = GenCfg::base(ModeCfg::Sched);
         c.max_len = 6000;
         c.long_inputs = true;
-        c.threads = ThreadsCfg::ParMax(4);
+        c.threads = ThreadsCfg::ParWide;
         c.chunk = ChunkCfg::Large;
         c.yield_every = vec![16, 64, 256, 1024];
         c.src = SrcClass::Deep;
@@ -232,7 +232,7 @@ fn len_strategy(max_len: usize) -> BoxedStrategy<usize> {
 }
 
 fn input_strategy(max_len: usize, long: bool) -> BoxedStrategy<Vec<u32>> {
-    let lens = if long { (1000usize..=max_len.max(1001)).boxed() } else { len_strategy(max_len) };
+    let lens = if long { prop_oneof![1 => 300usize..=1000, 2 => 1000usize..=max_len.max(1001)].boxed() } else { len_strategy(max_len) };
     lens
         .prop_flat_map(|n| {
             prop_oneof![
@@ -269,15 +269,35 @@ fn threads_strategy(cfg: ThreadsCfg) -> BoxedStrategy<Nt> {
     }
 }
 
+/// sizes around powers of two (word sizes, buffer sizes): where size-dependent arithmetic tends to change behaviour
+fn pow2ish(max: usize) -> BoxedStrategy<usize> {
+    let mut v: Vec<usize> = vec![1, 2, 3];
+    let mut p = 4usize;
+    while p <= max {
+        v.push(p - 1);
+        v.push(p);
+        if p + 1 <= max {
+            v.push(p + 1);
+        }
+        p *= 2;
+    }
+    proptest::sample::select(v).boxed()
+}
+
 fn chunk_strategy(cfg: ChunkCfg) -> BoxedStrategy<Cs> {
     match cfg {
         ChunkCfg::Any { big } => prop_oneof![
             2 => Just(Cs::Auto),
             4 => (1usize..=33).prop_map(Cs::Exact),
             4 => (1usize..=33).prop_map(Cs::Min),
+            // chunk size 1 selects separate code paths in every kernel, and Min(1) is what Auto resolves to on short inputs
+            1 => Just(Cs::Min(1)),
+            1 => Just(Cs::Exact(1)),
             2 => (0usize..=33).prop_map(Cs::Usize),
             1 => (34usize..=big.max(35)).prop_map(Cs::Exact),
             1 => (34usize..=big.max(35)).prop_map(Cs::Min),
+            1 => pow2ish(big.max(35)).prop_map(Cs::Exact),
+            2 => pow2ish(big.max(35)).prop_map(Cs::Min),
         ]
         .boxed(),
         ChunkCfg::Small(m) => prop_oneof![
@@ -288,9 +308,12 @@ fn chunk_strategy(cfg: ChunkCfg) -> BoxedStrategy<Cs> {
         .boxed(),
         ChunkCfg::Large => prop_oneof![
             1 => Just(Cs::Auto),
-            4 => (200usize..=4096).prop_map(Cs::Exact),
+            3 => (200usize..=4096).prop_map(Cs::Exact),
             3 => (200usize..=4096).prop_map(Cs::Min),
             1 => (1025usize..=3000).prop_map(Cs::Exact),
+            // medium sizes around powers of two, mostly minimum sizes (they grow for late workers)
+            1 => pow2ish(512).prop_map(Cs::Exact),
+            3 => pow2ish(512).prop_map(Cs::Min),
         ]
         .boxed(),
         ChunkCfg::ExactOnly(m) => prop_oneof![
@@ -424,12 +447,20 @@ fn schedule_strategy(yield_every: Vec<u16>) -> BoxedStrategy<Schedule> {
         ],
     )
         .prop_flat_map(move |(policy, tape, weights)| {
-            proptest::sample::select(yield_every.clone()).prop_map(move |yield_every| Schedule {
-                policy,
-                tape: tape.clone(),
-                weights: weights.clone(),
-                yield_every,
-            })
+            (
+                proptest::sample::select(yield_every.clone()),
+                prop_oneof![6 => Just(0u8), 2 => Just(1u8), 1 => 2u8..=5],
+                prop_oneof![5 => Just(0u8), 1 => 1u8..=3, 1 => 4u8..=12],
+            )
+                .prop_map(move |(yield_every, drop_yield, src_yield)| Schedule {
+                    policy,
+                    tape: tape.clone(),
+                    weights: weights.clone(),
+                    yield_every,
+                    // destructors as yield points only with fine-grained schedules
+                    drop_yield: if yield_every == 1 { drop_yield } else { 0 },
+                    src_yield: if yield_every == 1 { src_yield } else { 0 },
+                })
         })
         .boxed()
 }
